@@ -1765,7 +1765,20 @@ func (t *tScreen) collectEventsFromInput(buf *bytes.Buffer, expire bool) []Event
 		// do not let a shorter report (focus "\x1b[O") claim the bytes;
 		// wait for more data or for the escape timeout instead.
 		if partials == 0 || expire {
+			// An ESC that was held back to become Alt on the next key
+			// is delivered as Esc when a report follows it instead.
+			n := len(res)
+			report := func() {
+				if t.escaped {
+					t.escaped = false
+					res = append(res, nil)
+					copy(res[n+1:], res[n:])
+					res[n] = NewEventKey(KeyEsc, 0, ModNone)
+				}
+			}
+
 			if part, comp := t.parseFocus(buf, &res); comp {
+				report()
 				continue
 			} else if part {
 				partials++
@@ -1776,12 +1789,14 @@ func (t *tScreen) collectEventsFromInput(buf *bytes.Buffer, expire bool) []Event
 
 			if t.ti.Mouse != "" {
 				if part, comp := t.parseXtermMouse(buf, &res); comp {
+					report()
 					continue
 				} else if part {
 					partials++
 				}
 
 				if part, comp := t.parseSgrMouse(buf, &res); comp {
+					report()
 					continue
 				} else if part {
 					partials++
@@ -1790,6 +1805,7 @@ func (t *tScreen) collectEventsFromInput(buf *bytes.Buffer, expire bool) []Event
 
 			if t.setClipboard != "" {
 				if part, comp := t.parseClipboard(buf, &res); comp {
+					report()
 					continue
 				} else if part {
 					partials++
